@@ -230,9 +230,25 @@ def step(toks, ann):
                 data = bytearray(data)
             elif ann.get('buf') == 'shared':
                 data = shared_buf(data)
+            elif ann.get('buf') == 'mv-bytearray':
+                data = memoryview(bytearray(data))
+            elif ann.get('buf') == 'array-B':
+                import array
+                data = array.array('B', data)
+            elif ann.get('buf') == 'mv-slice':
+                data = memoryview(b'\x00' + data + b'\xff')[1:-1]
             return 'ok ' + hx(decode_huffman(data))
         except Exception as e:
             return canon(e)
+    if op == 'hcopy':         # the application copies / pickles the coder it holds (a snapshot of connection state) and goes on with the copy
+        global _huff
+        import pickle
+        try:
+            src = huff_coder()
+            _huff = {'copy': copy.copy, 'deep': copy.deepcopy, 'pickle': lambda o: pickle.loads(pickle.dumps(o))}[toks[1]](src)
+        except Exception as e:
+            return canon(e)
+        return 'ok'
     if op == 'hother':
         try:
             other_coder().encode(unhex(toks[1]))
